@@ -54,7 +54,7 @@ inductive Ctl where
 
 /-- one call of the control script -/
 inductive Cmd where
-  | play (audio : List Int)      -- `player.play(audio, chunk_size=cs)`
+  | play (audio : List Int) (cs : Nat)   -- `player.play(audio, chunk_size=cs)`
   | ctl (k : Ctl) (i : Nat)      -- `th_i.pause()` / `.play()` / `.stop()`
   | join (i : Nat)               -- `th_i.join()`
   | close                        -- `player.close()` (also `__exit__` of the with-block)
@@ -63,7 +63,7 @@ inductive Cmd where
 /-- pending operation of the control script -/
 inductive MPc where
   | begin
-  | pAcq (audio : List Int)      -- play: `with self.lock:`
+  | pAcq (audio : List Int) (cs : Nat)   -- play: `with self.lock:`
   | pRaiseRel                    -- play on a finished manager: lock released by the raise
   | pGoSet (i : Nat)             -- AudioThread.__init__: `self.go.set()`
   | pOpen (i : Nat)              -- `device_manager._pa.open(…)`; then `_threads.append`
@@ -100,6 +100,7 @@ inductive Ev where
 structure Player where
   pc : PPc
   audio : List Int               -- the iterable given to `play` (immutable; for the statements)
+  cs : Nat                       -- `chunk_size` given to `play` (samples per chunk; immutable)
   all : List (List Int)          -- `chunks(audio)`, immutable
   todo : List (List Int)         -- chunks not yet written
   written : List (List Int)      -- what the device stream received
@@ -112,7 +113,6 @@ structure Player where
 structure Cfg where
   wait : Bool
   fixed : Bool
-  cs : Nat                       -- chunk size (samples per chunk)
   deriving Repr, Inhabited
 
 structure State where
@@ -139,7 +139,7 @@ def init (script : List Cmd) : State :=
 /-- the control script moves on to its next call (local code, no yield point) -/
 def nextCmd (s : State) : List Cmd → State
   | [] => { s with mpc := .done, script := [] }
-  | .play audio :: rest => { s with mpc := .pAcq audio, script := rest }
+  | .play audio cs :: rest => { s with mpc := .pAcq audio cs, script := rest }
   | .close :: rest => { s with mpc := .kHAcq, script := rest }
   | .ctl k i :: rest =>
     if i < s.players.length then { s with mpc := .cAcq k i, script := rest }
@@ -176,12 +176,12 @@ def stepMain (cfg : Cfg) (s : State) : Option State :=
   | .begin => some (nextCmd s s.script)
   | .done => none
   -- play ---------------------------------------------------------------------------------
-  | .pAcq audio =>
+  | .pAcq audio cs =>
     if s.mlock.isSome then none else
     if s.finished then some { s with mlock := some .main, mpc := .pRaiseRel }
     else
-      let ch := chunksOf cfg.cs audio
-      let p : Player := { pc := .new, audio := audio, all := ch, todo := ch, written := [],
+      let ch := chunksOf cs audio
+      let p : Player := { pc := .new, audio := audio, cs := cs, all := ch, todo := ch, written := [],
                           sst := .unopened,
                           lk := none, go := false, halting := false }
       some { s with mlock := some .main, players := s.players ++ [p], mpc := .pGoSet s.players.length }
